@@ -26,7 +26,8 @@ CONSTANTS Slates,        \* slate names, e.g. {"s1","s2"}
           UseDiverge,    \* inject divergences into w1's records
           UseAccounts2,  \* a second account on the recipient w2, receives into it by name
           UseSelf,       \* w1 may receive its own slates (self-send), also into its second account
-          FundAcct2      \* w1 starts with a second account (a1 / "acct1") that holds NFund coinbases too
+          FundAcct2,     \* w1 starts with a second account (a1 / "acct1") that holds NFund coinbases too
+          UseBuild       \* owner::build_output and owner::create_mwixnet_req (second reservation kind) on w1
 
 VARIABLES st, hv, net, hist, mids   \* mids: the intermediate persistent states of the last step
 vars == <<st, hv, net, hist, mids>>
@@ -303,6 +304,21 @@ SetActiveAct(a) ==
   /\ Upd(LastOf(SetActive(st, "w1", [label |-> IF a = "a0" THEN "default" ELSE "acct1"]).steps), hv, net,
          [ev |-> "set_active", w |-> "w1", label |-> IF a = "a0" THEN "default" ELSE "acct1"])
 
+\* -- outputs built for the caller (owner::build_output): the key is handed out, nothing is stored
+NBuilt == Cardinality({m \in net : m.stage = "BUILT"})
+BuildOutputAct ==
+  /\ NBuilt < 2
+  /\ LET r == BuildOutput(st, "w1") IN
+     UpdS(r.steps, [hv EXCEPT !.issued["w1"] = @ \cup {r.key}], net \cup {Msg("", "BUILT", NBuilt + 1, 0, "", 0)},
+          [ev |-> "build_output", w |-> "w1", bkey |-> r.key])
+\* a mwixnet swap request for an Unspent output of the active account, with or without reserving it
+MwixReqAct(k, lock) ==
+  /\ NBuilt < 2
+  /\ k \in DOMAIN st.w["w1"].outs /\ st.w["w1"].outs[k].st = "Unspent" /\ st.w["w1"].outs[k].acct = st.w["w1"].active
+  /\ LET r == MwixReq(st, "w1", [k |-> k, lock |-> lock]) IN
+     UpdS(r.steps, [hv EXCEPT !.issued["w1"] = @ \cup {r.key}], net \cup {Msg("", "BUILT", NBuilt + 1, 0, "", 0)},
+          [ev |-> "mwix_req", w |-> "w1", key |-> k, lock |-> lock, bkey |-> r.key, mok |-> (r.res = "ok")])
+
 \* -- reorganisations, restore from seed, scan, injected divergences (C16, C18)
 NFork == Cardinality({m \in net : m.stage = "FORK"})
 ForkAct(d, keep) ==
@@ -403,6 +419,7 @@ Next ==
   \/ UseAdv /\ \E sl \in Slates : ForeignFinalizeBogus(sl) \/ ForeignReceiveOwn(sl) \/ ForeignFinalizeExpired(sl)
   \/ UseAdv /\ \E k \in DOMAIN st.w["w1"].outs : ForeignCoinbaseKey(k)
   \/ UseAdv /\ \E sl \in Slates, dest \in {"", "acct1"} : ForeignReceiveBad(sl, dest)
+  \/ UseBuild /\ (BuildOutputAct \/ \E k \in DOMAIN st.w["w1"].outs, lock \in BOOLEAN : MwixReqAct(k, lock))
 
 Spec == Init /\ [][Next]_vars
 
@@ -465,9 +482,10 @@ Prop_Foreign ==
 
 \* C15: a key handed to a NEW output was never handed out before
 Prop_Paths ==
-  [][Stepped /\ Ev.ev \in {"receive", "issue_invoice", "init_send", "process_invoice", "mine", "build_coinbase"} =>
+  [][Stepped /\ Ev.ev \in {"receive", "issue_invoice", "init_send", "process_invoice", "mine", "build_coinbase", "build_output", "mwix_req"} =>
        \A w \in WS :
-         LET newK == KeysOf(st', w) \ KeysOf(st, w) IN
+         LET newK == (KeysOf(st', w) \ KeysOf(st, w))
+                     \cup (IF "bkey" \in DOMAIN Ev /\ Ev.w = w /\ Ev.bkey # "" THEN {Ev.bkey} ELSE {}) IN
          ChkA(\A k \in newK : PathFresh(hv, w, k), "PathsUnique")]_vars
 
 \* C04: after a successful refresh the books of the active account equal the chain
